@@ -1,0 +1,11 @@
+//go:build verif && !amd64
+
+package checksum
+
+// Verification hooks (engine `csum`) on architectures without the AVX2 routine.
+
+func VerifHasAVX2() bool { return false }
+
+func VerifChecksumAVX2(buf []byte, initial uint16) uint16 {
+	panic("checksumAVX2 is amd64-only")
+}
